@@ -90,6 +90,10 @@ var orderNames = []string{"ascending", "descending", "zigzag-outside-in", "middl
 
 func (d *kvDriver[K]) probe() {
 	r := d.c.R
+	if r.Intn(25) == 0 {
+		d.m.Reload()
+		return
+	}
 	if d.m.Nav && d.m.A.Sorted && r.Intn(3) == 0 {
 		// navigation reads as part of the history (memoised extremes and
 		// floor/ceiling hints are wrong right after the call that should have
